@@ -12,8 +12,8 @@ import (
 
 func init() {
 	register(&Prop{
-		ID:    "C18",
-		Title: "Timeline algebra matches its mathematical meaning",
+		ID:          "C18",
+		Title:       "Timeline algebra matches its mathematical meaning",
 		Explanation: "R18.1 every value CompareAscending can return is one of the constants -1, 0, 1 (value-set analysis over its returns), and on every path of its decision tree the sign agrees with the ordered comparison of seconds, then nanos. R18.2 the cut ordering tables: belowAll / aboveAll compare as least / greatest and equal only to themselves; compareValueCuts puts every value cut above belowAll and below aboveAll, otherwise orders by timestamp and, for equal timestamps, `below` before `above`; cutPeriod maps absent bounds to the unbounded cuts and both present bounds to `below` cuts (half-open periods). R18.3 PeriodsIntersect and PeriodsConnected are false for nil periods and otherwise the conjunction lower1 ? upper2 ∧ lower2 ? upper1 with a strict comparison for Intersect and a non-strict one for Connected (hence symmetric). R18.4 no exported function of pkg/time, electricpb/segmentpb and electricpb/modepb writes through its arguments (parameter-mutation analysis with callee summaries). R18.5 running minimum/maximum accumulators compare with themselves. R18.6 a segment's Length is converted to a duration only in functions that test its presence. Does NOT decide anything numerical: interval semantics over all endpoints, the step-function laws of Sum / Shift / Cut / ActiveAt.",
 		Assumptions: []string{"timestamps are normalised (0 <= nanos < 1e9)"},
 		Run:         runC18,
@@ -189,8 +189,8 @@ func r182(c *an.Ctx) {
 	}
 	// unbounded cuts
 	for _, t := range []struct {
-		typ  string
-		inst string
+		typ   string
+		inst  string
 		else_ int64
 	}{{"belowAll", "belowAllInstance", -1}, {"aboveAll", "aboveAllInstance", 1}} {
 		fn := mustFunc(c, rule, timePkg, t.typ, "CompareTo")
